@@ -841,7 +841,16 @@ def d3_table(ctx):
         badv = [o for o in tmp.obs if not o['ok']]
         if badv:
             return False, 'name lookup consults more than the current and the global context (R09.3): a slot number of an enclosing function is used in the inner frame'
-        ok, why = _csa_ok(ctx, ('O8', 'O8-scope', 'R02.6'))
+        # operands are read where the compiler wrote them only if a return resumes exactly after its call: the saved code
+        # position is kept whole and restored from the right frame (R12.2 / R02.9)
+        from rules import c12
+        tmp2 = Report('tmp', 'quick')
+        c12.frame_contracts(ctx, tmp2, 'R12.2')
+        if [o for o in tmp2.obs if not o['ok']]:
+            return False, 'a return does not resume at the saved code position (R12.2): the machine then decodes operands at the wrong place'
+        # a compiler that is kept after a failed line starts the next line in the global context again (R17.2): otherwise top-level
+        # names become locals of a function that is not running
+        ok, why = _csa_ok(ctx, ('O8', 'O8-scope', 'R02.6', 'R17.2'))
         return ok, why or 'operand indices come from add_constant / the symbol table (R02.6, O8)'
 
     def frames_inv(ctx, site):
